@@ -6,6 +6,7 @@ import (
 	"fmt"
 	"runtime"
 	"strings"
+	"time"
 
 	"verif/harness/core"
 	"verif/harness/memnet"
@@ -176,7 +177,33 @@ func Run(c Case) core.Result {
 	if st := n.Startup(hp, hpass); st.State != memnet.Idle || !script.Ready(st.Msgs) {
 		return core.Fail("C04/not-accepting", "a new connection is not served after the hostile one: %v (state %s)", pgwire.Briefs(st.Msgs), st.State)
 	}
+	// handling ends: once every client has gone away and the server is closed, no library goroutine is left
+	env.Stop()
+	if d := leaked(); d != "" {
+		return core.Fail("C04/goroutine-leak", "library goroutines are still alive 5s after all connections ended and the server was closed:\n%s", clipS(d, 3000))
+	}
 	return res
+}
+
+// leaked waits (bounded) for every goroutine with a psql-wire frame to end and
+// returns the stacks of those that remain.
+func leaked() string {
+	deadline := time.Now().Add(5 * time.Second)
+	for {
+		var left []string
+		for _, g := range strings.Split(goroutineDump(), "\n\n") {
+			if strings.Contains(g, "jeroenrinzema/psql-wire.") && !strings.Contains(g, "props/c04.leaked") {
+				left = append(left, g)
+			}
+		}
+		if len(left) == 0 {
+			return ""
+		}
+		if time.Now().After(deadline) {
+			return strings.Join(left, "\n\n")
+		}
+		time.Sleep(2 * time.Millisecond)
+	}
 }
 
 func clipS(s string, n int) string {
